@@ -33,9 +33,14 @@ def kind_text(kind, marker):
 def path_render(ctx, job, box):
     """(i) + (ii) on grids with every arrangement of cell kinds."""
     cols, lines = job.params['geom']
-    run = GridRun(ctx, box, cols, lines, cursor='pick' if job.params.get('pick', False) else 'sym', tabstops=0,
+    opts = {'cursor': 'pick' if job.params.get('pick', False) else 'sym'}
+    if job.params.get('remote'):
+        # a larger screen of which four cells (two adjacent pairs: a wide character next to something) may be written
+        cells = [(0, 0), (0, 1), (lines - 1, cols - 2), (lines - 1, cols - 1)]
+        opts = {'cursor': (0, 0), 'buffer': ('sparse', cells)}
+    run = GridRun(ctx, box, cols, lines, tabstops=0,
                   titles='none', saved_columns='none', extra_mode=False, margins='none', cell_attrs='none',
-                  attr='none', modes={'DECSCNM': 'sym', 'DECAWM': True, 'DECTCEM': True})
+                  attr='none', modes={'DECSCNM': 'sym', 'DECAWM': True, 'DECTCEM': True}, **opts)
     L = run.L
     # replace every cell text by a symbolic choice of kind
     pre = run.pre
@@ -196,6 +201,8 @@ def jobs(tier):
     rg = [(1, 1), (2, 1), (3, 1), (2, 2)] if tier == 'quick' else [(1, 1), (2, 1), (3, 1), (2, 2), (4, 1), (3, 2)]
     for g in rg:
         js.append(Job('render/%dx%d' % g, path_render, geom=g, prop=PROP))
+    for g in ([(9, 6)] if tier == 'quick' else [(9, 6), (258, 2), (3, 258)]):
+        js.append(Job('render/remote/%dx%d' % g, path_render, geom=g, remote=True, prop=PROP))
     ig = [(2, 1), (2, 2), (1, 3)] if tier == 'quick' else [(1, 1), (2, 1), (1, 2), (2, 2), (3, 2), (1, 3), (2, 3)]
     for g in ig:
         for spec in sweep.ops(tier, g[0], g[1]):
@@ -210,5 +217,6 @@ META = {
     'bounds': 'render: grids up to 2x2/3x1 (thorough 3x2/4x1) with every cell absent or narrow/wide/placeholder/'
               'base+combining/symbol+VS16; independence: geometries quick {2x1,2x2,1x3} thorough {1x1,2x1,1x2,2x2,3x2,1x3,2x3}, every operation '
               'of the sweep, arbitrary symbolic materialisation mask over absent rows and cells',
-    'outside': 'larger grids; cell texts other than the four kinds',
+    'outside': 'larger grids other than the remote ones (9x6; thorough + 258x2, 3x258) of which two adjacent pairs of cells '
+               'may be written; cell texts other than the five kinds',
 }
